@@ -150,3 +150,21 @@ def register(reg):
       "(float()/int()); cell conversion is identity because CSV cells are str (checked: type Any, str values); "
       "non-empty = has a non-whitespace character; full dialect + encoding utf-8 + headers setting explicit; NUM_ROWS absent.",
       "Lean 4 theorems over the post-reader model + refutation witnesses + differential correspondence")
+
+  reg("C38", "proof",
+      "Proof by regeneration: every run re-reads schema.py/usertypes.py (by import) and schema.ts/gristTypes.ts (two small "
+      "parsers) under the GRIST_REPO root, rewrites lean/Generated/*.lean and the kernel re-checks, for the tree as it is, "
+      "schema_ts_matches_python (version, tables, columns, types and SchemaTypes = get_ts_type, in order), "
+      "schema_ts_text_matches (the file's text is the modelled generator's output), defaults_agree and "
+      "defaults_agree_everywhere (getDefaultForType = get_type_default on every type string). Proved for all inputs: "
+      "agree_iff / agree_lookup (the Boolean check is exactly the column-by-column and by-name specification), "
+      "tsTypeOf_suffix, tsDefault_suffix, defaultsAgree_sound / defaultsAgree_total. Differentially validated only: the "
+      "model of gen_js_schema.main()/get_ts_type against the REAL generator (real tree byte-for-byte, plus seeded random "
+      "schemas run through the real main() with a stub schema module), usertypes.get_type_default against pyDefault, the "
+      "TS parsers against the generator's fresh output, round trips and node's evaluation of the literals. The direct oracle "
+      "(real generator stdout == schema.ts; real get_type_default vs parsed _defaultValues per type; type-class instance "
+      "defaults) names the differing table/column/type.",
+      "trusted: translate.py readers/parsers/emitters (small; cross-checked as above) and the 3-line model of "
+      "getDefaultForType/extractTypeFromColType (TypeScript is not executed); defaults compared as cell values "
+      "(None=null, 0==0.0, inf==Number.POSITIVE_INFINITY); the SQLite text of _defaultValues is out of scope.",
+      "Lean 4 proof by regeneration (decide +kernel on generated data + general soundness lemmas) + differential correspondence")
